@@ -23,6 +23,7 @@ func init() {
 		Run: runC22,
 		Controls: []Control{
 			{Name: "reject-returns-before-close-on-write-error", File: "protocols/bgp/server/fsm_open_sent.go", Old: "\tif s.fsm.con != nil {\n\t\ts.fsm.sendNotification(packet.OpenMessageError, errorSubCode)\n\t\ts.fsm.con.Close()\n\t}\n", New: "\tif s.fsm.con != nil {\n\t\tif err := s.fsm.sendNotification(packet.OpenMessageError, errorSubCode); err != nil {\n\t\t\treturn newIdleState(s.fsm), reason\n\t\t}\n\t\ts.fsm.con.Close()\n\t}\n", Expect: "open-reject-closes-connection"},
+			{Name: "capabilities-built-before-the-family-is-set", File: "protocols/bgp/server/peer.go", Old: "\tcaps = append(caps, asn4Capability(c))\n", New: "\tcaps = append(caps, asn4Capability(c))\n\tif p.addressFamily(packet.AFIIPv6, packet.SAFIUnicast) == nil {\n\t\tcaps = caps[:len(caps):len(caps)]\n\t}\n", Expect: "constructor-calls-see-initialised-fields"},
 			{Name: "send-only-peer-falls-through-to-tx", File: "protocols/bgp/server/fsm_open_sent.go", Old: "\t\tcase packet.AddPathSend:\n\t\t\tif peerAddressFamily.addPathReceive {\n\t\t\t\tf.addPathRX = true\n\t\t\t}\n\t\tcase packet.AddPathSendReceive:\n", New: "\t\tcase packet.AddPathSend:\n\t\t\tif peerAddressFamily.addPathReceive {\n\t\t\t\tf.addPathRX = true\n\t\t\t}\n\t\t\tfallthrough\n\t\tcase packet.AddPathSendReceive:\n", Expect: "capability-needs-both-sides"},
 			{Name: "role-conflict-flag-reassigned-per-capability", File: "protocols/bgp/server/fsm_open_sent.go", Old: "\tif s.fsm.peer.peerRoleAdvByPeer && s.fsm.peer.peerRoleRemote != cap.PeerRole {\n\t\ts.multiplePeerRolesRcvd = true\n\t}\n", New: "\ts.multiplePeerRolesRcvd = s.fsm.peer.peerRoleAdvByPeer && s.fsm.peer.peerRoleRemote != cap.PeerRole\n", Expect: "conflict-flag-is-a-latch"},
 			{Name: "four-octet-flag-survives-the-session", File: "protocols/bgp/server/fsm_open_sent.go", Old: "\ts.fsm.supports4OctetASN = false\n", New: "", Expect: "negotiated-state-reset-per-session"},
@@ -38,6 +39,7 @@ func init() {
 }
 
 func runC22(c *core.Ctx) {
+	constructorCallsSeeInitialisedFields(c, "constructor-calls-see-initialised-fields")
 	capabilityWalkComplete(c, "capability-walk-is-complete", 4)
 	negotiationIsPerSession(c)
 	openRejectClosesConnection(c)
